@@ -9037,6 +9037,14 @@ class SVG(Group):
         viewbox = values.get(SVG_ATTR_VIEWBOX)
         par = values.get(SVG_ATTR_PRESERVEASPECTRATIO)
         self.viewbox = Viewbox(viewbox, par) if viewbox is not None else None
+        if self.viewbox is not None and (
+            self.viewbox.x is None
+            or self.viewbox.y is None
+            or self.viewbox.width is None
+            or self.viewbox.height is None
+        ):
+            # A viewBox without four numbers is in error and is ignored.
+            self.viewbox = None
 
     def get_element_by_id(self, id):
         return self.objects.get(id)
